@@ -39,6 +39,7 @@ Definition dec_event (v : val) : event :=
   | 8 => EWsRtsp (as_nat (nthv 1 v)) (as_int (nthv 2 v)) (as_bytes (nthv 3 v))
   | 9 => EWsp (as_nat (nthv 1 v)) (as_int (nthv 2 v)) (as_bytes (nthv 3 v))
   | 10 => EHttp (as_int (nthv 1 v)) (as_bytes (nthv 2 v)) (dec_tok (nthv 3 v)) (as_int (nthv 4 v)) (dec_hdrs (nthv 5 v))
+  | 12 => EUrl (as_bytes (nthv 1 v)) (dec_tok (nthv 2 v)) (dec_hdrs (nthv 3 v))
   | _ => EApi (as_int (nthv 1 v)) (dec_tok (nthv 2 v)) (dec_user (nthv 3 v)) (as_bool (nthv 4 v)) (as_bytes (nthv 5 v))
               (dec_hdrs (nthv 6 v))
   end.
@@ -52,7 +53,8 @@ Definition enc_obs (ev : event) (o : obs) : val :=
   | ERtsp _ _ _ _ | EWsRtsp _ _ _ => VL [VI (o_code o); vbool (o_media o); VL (map VI (o_reg o)); VI (o_aux o)]
   | EWsOpen _ _ _ _ _ => VL [VI (o_code o); VI (o_aux o); vbool (o_media o); VI (o_id o)]
   | EWsp _ _ _ => VL [VI (o_code o); vbool (o_media o); VI (o_aux o)]
-  | EHttp _ _ _ _ _ => VL [VI (o_code o); vbool (o_media o)]
+  | EHttp _ _ _ _ _ => VL [VI (o_code o); vbool (o_media o); VI (o_aux o)]
+  | EUrl _ _ _ => VL [VI (o_code o); vbool (o_media o); VI (o_aux o); VI (o_id o)]
   end.
 
 Definition dec_obs (ev : event) (v : val) : obs :=
@@ -65,7 +67,8 @@ Definition dec_obs (ev : event) (v : val) : obs :=
          o_reg := map as_int (as_list (nthv 2 v)) |}
   | EWsOpen _ _ _ _ _ => ob (as_int (nthv 0 v)) (as_int (nthv 1 v)) (as_bool (nthv 2 v)) (as_int (nthv 3 v))
   | EWsp _ _ _ => ob (as_int (nthv 0 v)) (as_int (nthv 2 v)) (as_bool (nthv 1 v)) 0
-  | EHttp _ _ _ _ _ => ob (as_int (nthv 0 v)) 0 (as_bool (nthv 1 v)) 0
+  | EHttp _ _ _ _ _ => ob (as_int (nthv 0 v)) (as_int (nthv 2 v)) (as_bool (nthv 1 v)) 0
+  | EUrl _ _ _ => ob (as_int (nthv 0 v)) (as_int (nthv 2 v)) (as_bool (nthv 1 v)) (as_int (nthv 3 v))
   end.
 
 Definition case_users (c : val) : list user := map dec_user (as_list (nthv 0 (nthv 0 c))).
